@@ -5,6 +5,7 @@ package main
 
 import (
 	"bufio"
+	"bytes"
 	"encoding/json"
 	"fmt"
 	"math/rand/v2"
@@ -85,11 +86,25 @@ func main() {
 			defer close(done)
 			var got []byte
 			buf := make([]byte, 65536)
-			for len(got) < want {
+			// the client ends its writes with a marker (a separate write): whatever arrived in
+			// front of it is all that will ever arrive, the pty keeps the order
+			marker := []byte(os.Getenv("FAKESSH_END"))
+			for len(got) < want+len(marker) {
 				n, err := os.Stdin.Read(buf)
 				got = append(got, buf[:n]...)
 				if err != nil {
 					break
+				}
+				if len(marker) > 0 {
+					from := len(got) - n - len(marker)
+					if from < 0 {
+						from = 0
+					}
+					if i := bytes.Index(got[from:], marker); i >= 0 {
+						got = got[:from+i]
+
+						break
+					}
 				}
 			}
 			_ = os.WriteFile(out+".in.tmp", got, 0o600)
